@@ -7,7 +7,7 @@
 From Coq Require Import List ZArith Bool.
 From LV Require Import Gen.Consts_C03 Gen.Funs_C03 Region.RegionDefs
      Wire.CountsModel Wire.CountsProofs Wire.CapsModel Wire.UpdateModel Wire.CapsProofs
-     Wire.S2CModel Wire.S2CProofs Region.RegionProofs Wire.InsideProofs Wire.ModelProofs.
+     Wire.S2CModel Wire.S2CProofs Region.RegionProofs Wire.InsideProofs Wire.ModelProofs Wire.S2CSound.
 Import ListNotations.
 Local Open Scope Z_scope.
 
@@ -453,6 +453,51 @@ Example C03_parse_print_hextile_tight_nonvacuous :
   wf_rects ex2_state ex2_rects ex2_state /\
   parse_stream ex2_state (print_fbu 0 ex2_rects) = ([MFbu 5 (map fst ex2_rects) false], ex2_state, SeClean).
 Proof. exact (conj ex2_rects_wf ex2_rects_parse). Qed.
+
+(* the other server-to-client message types: Bell, ServerCutText (plain and extended), SetColourMapEntries,
+   ResizeFrameBuffer, xvp *)
+Theorem C03_parse_print_other : forall hf s rest,
+  parse_msg hf s (print_bell ++ rest) = POk (MBell, s) rest /\
+  (forall d, Z.of_nat (length d) < 2147483648 ->
+     parse_msg hf s (print_cuttext d ++ rest) = POk (MCutText (Z.of_nat (length d)) false, s) rest) /\
+  (forall d, mem enc_ExtendedClipboard (p_latest s) = true -> 4 <= Z.of_nat (length d) <= 2147483648 ->
+     parse_msg hf s (print_cuttext_ext d ++ rest) = POk (MCutText (Z.of_nat (length d)) true, s) rest) /\
+  (forall first entries, p_truecolour s = false -> r16 first -> r16 (Z.of_nat (length entries)) ->
+     Forall (fun e => len_is e 6) entries ->
+     parse_msg hf s (print_cmap first entries ++ rest) = POk (MCMap first (Z.of_nat (length entries)), s) rest) /\
+  (forall w h, p_scale_requested s = true -> r16 w -> r16 h ->
+     parse_msg hf s (print_resize w h ++ rest) = POk (MResize w h, pst_set_fb s w h) rest) /\
+  (forall v c, mem enc_Xvp (p_named s) = true ->
+     parse_msg hf s (print_xvp v c ++ rest) = POk (MXvp v c, s) rest).
+Proof. exact parse_print_other. Qed.
+
+(* ---- C03_parse_sound: SOUNDNESS of the strict parser (the direction that makes "the extracted parser
+   accepted every byte the real server wrote" meaningful).  Whatever [parse_msg] accepts as a FramebufferUpdate:
+   the announced count is the number of rectangles, or 65535 with LastRect termination only if the latest
+   SetEncodings named LastRect; every pixel rectangle uses Raw or an encoding named in some SetEncodings, a
+   pixel size that encoding can carry, and lies inside the framebuffer size announced at that point of the
+   stream (NewFBSize / ExtDesktopSize rectangles update it); every pseudo-rectangle is named in the latest
+   SetEncodings; colour maps only for a client without true colour, extended cut text, resize and xvp only
+   after the client enabled / requested them. *)
+Theorem C03_parse_sound : forall hf s l m s' rest, parse_msg hf s l = POk (m, s') rest ->
+  match m with
+  | MFbu n rs lm =>
+      rects_sound s rs /\
+      (if lm then n = 65535 /\ pseudo_enabled s enc_LastRect = true else length rs = Z.to_nat n /\ n <> 65535)
+  | MCMap _ _ => p_truecolour s = false
+  | MCutText _ true => mem enc_ExtendedClipboard (p_latest s) = true
+  | MResize _ _ | MPalmResize _ _ => p_scale_requested s = true
+  | MXvp _ _ => mem enc_Xvp (p_named s) = true
+  | _ => True
+  end.
+Proof. exact parse_msg_sound. Qed.
+
+(* the handshake check is strict: accepted bytes have exactly the length of the expected shape and agree with
+   every literal byte of it (only the 16 challenge bytes and the reason text are free) *)
+Theorem C03_handshake_strict : forall sc h l, check_handshake sc h l = true ->
+  length l = length (fst (handshake_shape sc h)) /\
+  Forall2 (fun o b => match o with Some v => b = v | None => True end) (fst (handshake_shape sc h)) l.
+Proof. exact handshake_strict. Qed.
 
 (* ---- C03_serverinit: width, height, pixel format and the name truncated to 127 bytes ---- *)
 Theorem C03_serverinit : forall sc rest,
